@@ -68,8 +68,9 @@ impl SwiftField for Field23 {
                     });
                 }
 
-                // NOTICE function code requires days field
-                if function_code != "NOT" && function_code != "NOTICE" {
+                // Days belong to the function NOTICE. In MT935 the field reads
+                // (currency)(days)(function), e.g. USD15NOTICE: the function is what follows the days
+                if function_code != "NOT" && function_code != "NOTICE" && &input[5..] != "NOTICE" {
                     return Err(ParseError::InvalidFormat {
                         message: format!(
                             "Days field only allowed for NOTICE function code, found {}",
